@@ -14,7 +14,7 @@ PROP = dict(
     mismatch_is_violation=True,
     rule="(1) 56 template programs (4 of them: functions and a lambda with void-typed parameters - explicit `u: void` first/middle/last/several and a type parameter instantiated with nil and with values - `?` success and failure, `!`, explicit return, implicit result, caller sentinel locals, calls inside operands); the other 52: `?`/`!` at statement, operand, argument, nested-call, loop+tuple and void-payload position x "
          "option/result x inputs {-3,0,2,7}; expected trace of executed statements computed in the harness from the property's own "
-         "words (spec_fail on deviation); (2) the real prelude functions Try.branch / Try.from_residual / Unwrap.unwrap called "
+         "words (spec_fail on deviation); (1b) 16 task programs: main reaches a failing `!` (none / err / inside a called function) or, for contrast, goes on after a handled failing `?`, while one or two tasks print in bounded and unbounded loops; run under budgets {100},{1000},{7},{1} with the host serviced as abra_cli does; required: the outcome (panic error / done), exactly the expected main lines, termination within the step bound, and at most tasks*(60/budget+2) task lines after main's last line; (2) the real prelude functions Try.branch / Try.from_residual / Unwrap.unwrap called "
          "directly on 22 values vs the transliteration the theorems are about; (3) quick 160 / thorough 4000 generated F2/F3 programs "
          "with boosted `?`/`!` in every expression position (functions returning option/result, recursion, success and failure "
          "inputs), run under step budgets {1000},{1},{2,3,7},{100}, output + final value + error kind vs Abra.Sem; (4) every try "
